@@ -261,7 +261,7 @@ def run(tier: str, only=None) -> int:
     chvals = E.LEAVES + [v for v in vals[len(E.LEAVES) :: max(1, len(vals) // (150 if tier == "quick" else 1500))]]
     chvals = [v for v in chvals if not (type(v) is int and v < -(2**31) and "c01:int-below-minus-2**31" in seen)]
     ChanScn.VALUES = chvals
-    ChanScn.INVALID = [(n, s(leaf)) for n, leaf in E.unsupported_leaves()[:12] + E.unsupported_leaves()[-3:] for s in (lambda x: x, lambda x: [1, {"k": x}])]
+    ChanScn.INVALID = [(n, s(leaf)) for n, leaf in E.unsupported_leaves()[:12] + [u for u in E.unsupported_leaves()[12:] if u[0] == "bad-str" or u is E.unsupported_leaves()[-1]] for s in (lambda x: x, lambda x: [1, {"k": x}])]
     for tr in ("popen", "socket", "via"):
         res = explorer.run_once(ChanScn.scenario, ChanScn.oracle, {"transport": tr}, [], horizon=5000000)
         rep.add_enumeration(f"channel-{tr}", len(chvals) + len(ChanScn.INVALID), len(ChanScn.INVALID))
